@@ -661,3 +661,32 @@ def shrink(case):
     for name in ('HelpArgFull', 'ListArgVar', 'EndValues', 'NoAbbr'):
         if flags & F[name]:
             yield mk_case(flags & ~F[name], width, cmds, args)
+
+
+CLAIM = {
+    'text': 'Coq theorems (Properties_C18.v) over an executable model of ArgumentDesc::print/printArguments/doPrint/key, '
+            'UsageParams, Handler::handleStartFlags/usage/helpArgument that renders through the C17 text-block model: for '
+            'every argument list, every setting of print-hidden / print-deprecated / contents and every line width the '
+            'usage is the mandatory section followed by the optional one, each with its caption and one entry per '
+            'visible argument of its class in definition order (C18_usage_section, _section_order); for every way of '
+            'identifying an argument the number of its entries equals the number of visible arguments identified, and '
+            'the listed arguments are a rearrangement of exactly the visible ones (C18_usage_each_visible_once, '
+            '_lists_exactly_visible); an entry starts with the key text and its words are the key text plus every word '
+            'of the description and of the configured default value / check / constraint / deprecated / hidden lines '
+            '(C18_usage_entry_complete, _extras_configured, _key_text_complete); short-only / long-only display lists '
+            'exactly arguments with such a key (C18_usage_short_long_only); --help-arg prints the description of the '
+            'argument it found or reports the key as unknown (C18_help_arg_known_or_unknown); a requested display is on '
+            'afterwards and the usage does not throw (C18_display_requested, _usage_never_throws). The model is tied to '
+            'the code by a correspondence check on a layout-insensitive digest of the text written to the output and '
+            'error stream (captions, ordered key texts, words per entry) and on the raw text as internal observable.',
+    'note': 'three defects of the pinned tree found and repaired (fixes/C18-1..3): --help-arg with an abbreviated key '
+            'printed no description; the usage threw for level counter arguments; --print-hidden / --print-deprecated '
+            'switched the display off when the constructor flag had switched it on. trusted: Coq kernel, extraction, '
+            'the hand-written model (validated by correspondence on every run), the digest function mirrored in the '
+            'harness; domain: hfUsageCont, no usage texts / sub-groups / groups, print-default only on types that '
+            'deliver a default value',
+    'technique': 'Coq proof: counting lemma over the two-pass printer (induction over the argument list with the '
+                 'printed-counter as invariant), filter/permutation reasoning, C17 words-preserved for the entries; '
+                 'model/implementation correspondence with enumerated display settings',
+    'design_ref': 'DESIGN.md section 5, C18',
+}
